@@ -22,7 +22,9 @@ Inductive dev :=
 Definition FAIL : Z := -1.
 Definition nz (z : Z) : bool := negb (Z.eqb z 0).     (* C truth value *)
 
-Record dd := { d_tag : Z; d_ref : Z; d_off : Z; d_len : Z; d_special : bool }.
+(** d_special: stored as a special element; d_ext: ... of the external kind (its start-access reads the header with
+    HP_read directly; the linked-block, compressed and chunked kinds read it through a nested plain Hstartaccess) *)
+Record dd := { d_tag : Z; d_ref : Z; d_off : Z; d_len : Z; d_special : bool; d_ext : bool }.
 Record arec := { a_id : Z; a_access : Z; a_new : bool; a_app : bool; a_special : bool; a_tag : Z; a_ref : Z; a_posn : Z }.
 (** vgroup / vdata instances attached through the V interface: v_access is the character 'r' / 'w' *)
 Record vrec := { v_key : Z; v_isvs : bool; v_access : Z; v_aid : Z; v_marked : bool }.
@@ -101,7 +103,7 @@ Definition hstartaccess (f : frec) (tag ref flags : Z) : frec * Z * list dev :=
   | None =>
     if nz (hstartaccess_nocreate flags) then (f, FAIL, [])
     else (* HTPcreate *)
-      let f1 := upd_dds f (f_dds f ++ [{| d_tag := tag; d_ref := ref; d_off := INVALID_OFFSET; d_len := INVALID_LENGTH; d_special := false |}]) in
+      let f1 := upd_dds f (f_dds f ++ [{| d_tag := tag; d_ref := ref; d_off := INVALID_OFFSET; d_len := INVALID_LENGTH; d_special := false; d_ext := false |}]) in
       let '(f2, w) := htiupdate_dd f1 in
       finish f2 true w
   | Some d =>
@@ -109,7 +111,9 @@ Definition hstartaccess (f : frec) (tag ref flags : Z) : frec * Z * list dev :=
       (* special element: stread / stwrite of its function table (H*Istaccess) *)
       let acc_mode := if nz (hstartaccess_special_read flags) then hl_stread_mode else hl_stwrite_mode in
       if nz (hlistaccess_denied (f_access f) acc_mode) then (f, FAIL, [])
-      else let '(f2, id) := new_rec f (hlistaccess_access acc_mode) false false true tag ref in (f2, id, [])
+      else let '(f2, id) := new_rec f (hlistaccess_access acc_mode) false false true tag ref in
+           (* reading the special header: a nested plain Hstartaccess (version check) except for external elements *)
+           ((if d_ext d || f_vset f2 then f2 else hicheckfileversion f2), id, [])
     else finish f (Z.eqb (d_off d) INVALID_OFFSET && Z.eqb (d_len d) INVALID_LENGTH) []
   end.
 
@@ -124,7 +128,7 @@ Definition hsetlength (f : frec) (aid len : Z) : frec * Z * list dev :=
     match find_dd f1 (a_tag a) (a_ref a) with
     | None => (f1, FAIL, w1)
     | Some d =>
-      let f2 := set_dd f1 (a_tag a) (a_ref a) {| d_tag := d_tag d; d_ref := d_ref d; d_off := off; d_len := len; d_special := d_special d |} in
+      let f2 := set_dd f1 (a_tag a) (a_ref a) {| d_tag := d_tag d; d_ref := d_ref d; d_off := off; d_len := len; d_special := d_special d; d_ext := d_ext d |} in
       let '(f3, w2) := htiupdate_dd f2 in
       (put_rec f3 {| a_id := a_id a; a_access := a_access a; a_new := false; a_app := a_app a; a_special := a_special a;
                      a_tag := a_tag a; a_ref := a_ref a; a_posn := a_posn a |}, 0, w1 ++ w2)
@@ -154,7 +158,7 @@ Definition hlconvert (f : frec) (aid : Z) : frec * Z * list dev :=
     | None => (f, FAIL, [])
     | Some d =>
       if d_special d then (f, FAIL, []) else
-      let f1 := set_dd f (a_tag a) (a_ref a) {| d_tag := d_tag d; d_ref := d_ref d; d_off := d_off d; d_len := d_len d; d_special := true |} in
+      let f1 := set_dd f (a_tag a) (a_ref a) {| d_tag := d_tag d; d_ref := d_ref d; d_off := d_off d; d_len := d_len d; d_special := true; d_ext := false |} in
       let '(f2, w) := htiupdate_dd f1 in
       (put_rec f2 {| a_id := a_id a; a_access := a_access a; a_new := false; a_app := false; a_special := true;
                      a_tag := a_tag a; a_ref := a_ref a; a_posn := a_posn a |}, 0, w ++ [WSpecialHeader])
@@ -188,7 +192,7 @@ Definition hwrite (f : frec) (aid len : Z) : frec * Z * list dev :=
           let '(f2, r, w2) := hlconvert f1 aid in
           if Z.eqb r FAIL then (f2, FAIL, w1 ++ w2) else (f2, len, w1 ++ w2 ++ [WData len])
         else
-          let f2 := set_dd f1 (a_tag a1) (a_ref a1) {| d_tag := d_tag d; d_ref := d_ref d; d_off := d_off d; d_len := a_posn a1 + len; d_special := false |} in
+          let f2 := set_dd f1 (a_tag a1) (a_ref a1) {| d_tag := d_tag d; d_ref := d_ref d; d_off := d_off d; d_len := a_posn a1 + len; d_special := false; d_ext := false |} in
           let '(f3, w2) := htiupdate_dd f2 in
           let e := Z.max (f_end f3) (d_off d + a_posn a1 + len) in
           (put_rec (upd_end f3 e) {| a_id := a_id a1; a_access := a_access a1; a_new := a_new a1; a_app := a_app a1; a_special := false;
@@ -209,7 +213,7 @@ Definition htrunc (f : frec) (aid len : Z) : frec * Z * list dev :=
     | None => (f, FAIL, [])
     | Some d =>
       if len <? d_len d then
-        let f1 := set_dd f (a_tag a) (a_ref a) {| d_tag := d_tag d; d_ref := d_ref d; d_off := d_off d; d_len := len; d_special := d_special d |} in
+        let f1 := set_dd f (a_tag a) (a_ref a) {| d_tag := d_tag d; d_ref := d_ref d; d_off := d_off d; d_len := len; d_special := d_special d; d_ext := d_ext d |} in
         let '(f2, w) := htiupdate_dd f1 in
         (put_rec f2 {| a_id := a_id a; a_access := a_access a; a_new := a_new a; a_app := a_app a; a_special := a_special a;
                        a_tag := a_tag a; a_ref := a_ref a; a_posn := Z.min (a_posn a) len |}, len, w)
@@ -261,7 +265,7 @@ Definition hdupdd (f : frec) (tag ref otag oref : Z) : frec * Z * list dev :=
     match find_dd f tag ref with
     | Some _ => (f, FAIL, [])
     | None =>
-      let f1 := upd_dds f (f_dds f ++ [{| d_tag := tag; d_ref := ref; d_off := d_off d; d_len := d_len d; d_special := d_special d |}]) in
+      let f1 := upd_dds f (f_dds f ++ [{| d_tag := tag; d_ref := ref; d_off := d_off d; d_len := d_len d; d_special := d_special d; d_ext := d_ext d |}]) in
       let '(f2, w1) := htiupdate_dd f1 in      (* HTPcreate *)
       let '(f3, w2) := htiupdate_dd f2 in      (* HTPupdate *)
       (f3, 0, w1 ++ w2)
@@ -280,7 +284,7 @@ Definition hdreuse (f : frec) (tag ref : Z) : frec * Z * list dev :=
   match find_dd f tag ref with
   | None => (f, FAIL, [])
   | Some d =>
-    let '(f1, w) := htiupdate_dd (set_dd f tag ref {| d_tag := tag; d_ref := ref; d_off := INVALID_OFFSET; d_len := INVALID_LENGTH; d_special := d_special d |}) in
+    let '(f1, w) := htiupdate_dd (set_dd f tag ref {| d_tag := tag; d_ref := ref; d_off := INVALID_OFFSET; d_len := INVALID_LENGTH; d_special := d_special d; d_ext := d_ext d |}) in
     (f1, 0, w)
   end.
 
@@ -294,12 +298,12 @@ Definition hspecial_create (f : frec) (which tag ref : Z) : frec * Z * list dev 
   match find_dd f tag ref with
   | Some d =>
     if d_special d then (f, FAIL, []) else
-    let f1 := set_dd f tag ref {| d_tag := tag; d_ref := ref; d_off := d_off d; d_len := d_len d; d_special := true |} in
+    let f1 := set_dd f tag ref {| d_tag := tag; d_ref := ref; d_off := d_off d; d_len := d_len d; d_special := true; d_ext := Z.eqb which 1 |} in
     let '(f2, w) := htiupdate_dd f1 in
     let '(f3, id) := new_rec f2 DFACC_RDWR false false true tag ref in
     (f3, id, w ++ [WSpecialHeader])
   | None =>
-    let f1 := upd_dds f (f_dds f ++ [{| d_tag := tag; d_ref := ref; d_off := f_end f; d_len := 0; d_special := true |}]) in
+    let f1 := upd_dds f (f_dds f ++ [{| d_tag := tag; d_ref := ref; d_off := f_end f; d_len := 0; d_special := true; d_ext := Z.eqb which 1 |}]) in
     let '(f2, w) := htiupdate_dd f1 in
     let '(f3, id) := new_rec f2 DFACC_RDWR false false true tag ref in
     (f3, id, w ++ [WSpecialHeader])
